@@ -214,6 +214,23 @@ def run(ctx, tier):
                 ctx.violation("result-depends-on-error-and-warning-policy:" + _name(fn).split(".")[-1], function=_name(fn), args=repr(a)[:300],
                               default_state=repr(_norm(base))[:300], errors_raised=repr(_norm(alt))[:300], monitor="replay", case=None)
     ctx.hit("replay_with_fp_errors_raised", ne)
+    # phase 1q: ... and the opposite policy: a host that SILENCES numeric anomalies (np.errstate(all="ignore"), every warning
+    # ignored - common in data pipelines).  A function that relies on a warning being raised as an exception (a filter it
+    # installed for itself at import) to take a special path loses that path here
+    nq = 0
+    if np is not None:
+        import warnings as _w
+        for i in order[:6000]:
+            fn, a, k, want = rec[i]
+            with np.errstate(all="ignore"), _w.catch_warnings():
+                _w.simplefilter("ignore")
+                got = repr(probe.call(fn, *_copy(a), **_copy(k)))
+            nq += 1
+            ctx.ev()
+            if got != want:
+                ctx.violation("result-depends-on-error-and-warning-policy:" + _name(fn).split(".")[-1], function=_name(fn), args=repr(a)[:300],
+                              recorded=want[:300], with_anomalies_and_warnings_silenced=got[:300], monitor="replay", case=None)
+    ctx.hit("replay_calls_with_numeric_anomalies_silenced", nq)
     # phase 1h: real-valued arguments handed over as 0-d numpy arrays (an element picked with track[i, ...], an xarray value):
     # the answer is that of the scalar, the caller's array is left untouched, and asking twice gives the same
     nz = 0
@@ -309,7 +326,15 @@ def run(ctx, tier):
     # and must still bring back its own answer (a per-thread scratch record is private to the thread, not to the call).  A line
     # trace function is where Python itself runs such handlers: between two bytecode lines, in the same thread.
     nre = [0, 0]
-    if "reenter" not in skip:
+    # (a library that guards shared state with a plain, non-reentrant lock is correct for every schedule of THREADS - all the
+    #  properties quantify over - but cannot be re-entered from a handler in the same thread without waiting for itself: the
+    #  phase is not run then, and says so)
+    _plain = type(threading.Lock())
+    uses_plain_locks = any(isinstance(v_, _plain) for n_, m_ in list(sys.modules.items()) if n_.startswith("pyModeS") and m_ is not None
+                           for v_ in list(getattr(m_, "__dict__", {}).values()))
+    if uses_plain_locks:
+        ctx.hit("replay_re_entry_not_run_library_holds_plain_locks")
+    if "reenter" not in skip and not uses_plain_locks:
         from . import core as _core
         prefix = os.path.realpath(os.path.join(_core.REPO, "src")) + os.sep
         by_fn = {}
@@ -323,7 +348,10 @@ def run(ctx, tier):
                 f2, a2, k2, w2 = st["inner"]
                 g2 = repr(probe.call(f2, *_copy(a2), **_copy(k2)))     # untraced: tracing is off while a trace function runs
                 nre[1] += 1
-                if g2 != w2 and st["bad"] is None:
+                if "CaseTimeout" in g2[:40]:
+                    st["left"] = 0          # the watchdog ended a re-entered call that waited for a lock: no further re-entries
+                    st["blocked"] = True
+                elif g2 != w2 and st["bad"] is None:
                     st["bad"] = (f2, a2, w2, g2)
             return _line
 
@@ -336,13 +364,26 @@ def run(ctx, tier):
             fn, a, k, want = rec[i]
             same = by_fn[id(fn)]
             j = rng.choice(same) if rng.random() < 0.6 else rng.randrange(len(rec))
-            st.update(inner=rec[j], left=4, bad=None)
+            st.update(inner=rec[j], left=4, bad=None, blocked=False)
             aa, kk = _copy(a), _copy(k)
+            blocked = False
+            if _core._alarm:
+                import signal as _sg
+                _sg.alarm(6)       # a re-entered call that waits for a lock its own thread holds never comes back by itself
             sys.settrace(_glob)
             try:
                 got = repr(probe.call(fn, *aa, **kk))
+            except _core.CaseTimeout:
+                blocked = True
             finally:
                 sys.settrace(None)
+                if _core._alarm:
+                    _sg.alarm(0)
+            if blocked or st.get("blocked"):
+                # a plain (non-reentrant) lock around shared state is correct for every schedule of THREADS, which is all the
+                # properties quantify over; that it cannot be re-entered from a handler in the same thread is not judged
+                ctx.hit("replay_re_entry_blocked_on_a_lock_not_judged")
+                break
             nre[0] += 1
             ctx.ev()
             if got != want:
@@ -648,13 +689,15 @@ def _cold(ctx, tier, rec, rng):
         for j in range(runs):
             try:
                 # interpreter flags a deployment may use: assertions off (-O), docstrings stripped as well (-OO)
-                flags = ([], ["-O"], ["-OO"])[(j + ctx.shard) % 3]
+                flags = ([], ["-O"], ["-OO"], ["-bb"])[(j + ctx.shard) % 4]     # ... str / bytes comparisons are errors (-bb)
                 ctx.hit("replay_cold_start_flags_" + ("".join(flags) or "default"))
-                strict = ([], ["strict"], ["ambient"], ["closed"])[(j + ctx.shard // 3) % 4]
+                strict = ([], ["strict"], ["ambient"], ["closed"], ["yield"])[(j + ctx.shard // 3) % 5]
                 if strict == ["strict"]:
                     ctx.hit("replay_cold_start_strict_numeric_policy")
                 elif strict == ["closed"]:
                     ctx.hit("replay_cold_start_closed_standard_streams")
+                elif strict == ["yield"]:
+                    ctx.hit("replay_cold_start_yield_injection")
                 elif strict:
                     ctx.hit("replay_cold_start_print_options_set_before_import")
                 # the workers run with PYTHONHASHSEED=0; a deployment does not: every fresh interpreter gets another string-hash
@@ -671,7 +714,7 @@ def _cold(ctx, tier, rec, rng):
             n += 1
             for w in out[:2]:
                 ctx.violation("result-differs-in-a-fresh-interpreter:" + w["function"].split(".")[-1], monitor="replay",
-                              case=None, interpreter_flags=("".join(flags) or "default") + (" + np.seterr(all=raise) before first use" if strict == ["strict"] else " + standard streams closed" if strict == ["closed"] else " + numpy print options / decimal context set before import" if strict else ""), **w)
+                              case=None, interpreter_flags=("".join(flags) or "default") + (" + np.seterr(all=raise) before first use" if strict == ["strict"] else " + standard streams closed" if strict == ["closed"] else " + threads yield at random lines of library code" if strict == ["yield"] else " + numpy print options / decimal context set before import" if strict else ""), **w)
         ctx.hit("replay_cold_start_processes", n)
     finally:
         try:
